@@ -325,7 +325,7 @@ def _roundtrip_domain(case):
     if body.count(b) != len(case["parts"]) + 1:
         return "boundary occurs in the content"
     if not re.fullmatch(r"[0-9A-Za-z'()+_,\-./:=? ]{0,69}[0-9A-Za-z'()+_,\-./:=?]", case["boundary"]):
-        return "boundary outside RFC 2046 bchars"
+        return "boundary outside RFC 2046 bchars"    # also gives `LF not in boundary`, the side condition of multipart_roundtrip_partial
     if case["ct"].count("boundary=") != 1 or ";" in case["boundary"]:
         return "content-type header ambiguous"
     for n, fn, ct, v in case["parts"]:
